@@ -76,3 +76,60 @@ extern "C" void h_timers() {
     loop.cleanup();
     VP_REACH("timers");
 }
+
+// long intervals: never early whatever the interval - also 2^32 ms and beyond (49.7 days), for one-shot and persistent timers
+extern "C" void h_timer_long() {
+    vps::SeqLoop loop; g_now_ms = 1000;
+    unsigned long d = nondet_ulong(); VP_ASSUME(d >= 1 && d <= (1ul << 34));
+    bool per = nondet_bool();
+    static int fired_l; fired_l = 0;
+    TimerEvent *t = loop.newTimerEvent("long");
+    VP_ASSERT(t->initialize(std::chrono::milliseconds(d), per ? Event::Mode::kPersist : Event::Mode::kOneshot), "initialize");
+    t->setCallback([] { fired_l++; });
+    VP_ASSERT(t->enable(), "enable");
+    unsigned long a = nondet_ulong(); VP_ASSUME(a < d);
+    g_now_ms = 1000 + a; loop.pass();
+    VP_ASSERT(fired_l == 0, "a timer never fires before t + d, whatever the interval (also >= 2^32 ms)");
+    g_now_ms = 1000 + d; loop.pass();
+    VP_ASSERT(fired_l == 1, "the timer fires once its interval has passed");
+    if (per) {
+        unsigned long b = nondet_ulong(); VP_ASSUME(b < d);
+        g_now_ms = 1000 + d + b; loop.pass();
+        VP_ASSERT(fired_l == 1, "the second invocation of a persistent timer is not before t + 2d");
+        g_now_ms = 1000 + 2 * d; loop.pass();
+        VP_ASSERT(fired_l == 2, "no period is skipped");
+    } else VP_ASSERT(!t->isEnabled(), "a one-shot timer is disabled after it fired");
+    delete t; loop.pass(); loop.cleanup();
+    VP_REACH("timer_long");
+}
+// timer pool (eventx::TimerPool on the real loop timers, loop reported as running so that deletions are deferred): a task cancelled from
+// inside another task's callback never runs afterwards - also when both were due in the same pass
+#include "eventx/timer_pool.cpp"
+struct DummyFd : FdEvent { DummyFd() : FdEvent("dummy") {} bool initialize(int, short, Mode) override { return true; } void setCallback(CallbackFunc &&) override {} bool isEnabled() const override { return true; }
+    bool enable() override { return true; } bool disable() override { return true; } Loop *getLoop() const override { return nullptr; } };
+static eventx::TimerPool *TP; static eventx::TimerPool::TimerToken tp_tok1; static int tp_ran[2]; static bool tp_cancelled, tp_do_cancel;
+extern "C" void h_timer_pool() {
+    vps::SeqLoop loop; g_now_ms = 1000;
+    DummyFd dummy; loop.sp_run_read_event_ = &dummy; loop.loop_thread_id_ = std::this_thread::get_id();     // the loop counts as running, the harness thread is its thread
+    {
+        eventx::TimerPool pool(&loop); TP = &pool; tp_ran[0] = tp_ran[1] = 0; tp_cancelled = false; tp_do_cancel = nondet_bool();
+        bool every = nondet_bool();
+        pool.doAfter(std::chrono::milliseconds(20), [] { tp_ran[0]++; if (tp_do_cancel) { bool r = TP->cancel(tp_tok1); tp_cancelled = r; VP_ASSERT(r, "a pending task can be cancelled"); } });
+        auto second = [] { VP_ASSERT(!tp_cancelled, "a task whose cancellation reported success never runs afterwards (also when it was due in the same pass)"); tp_ran[1]++; };
+        tp_tok1 = every ? pool.doEvery(std::chrono::milliseconds(21), second) : pool.doAfter(std::chrono::milliseconds(21), second);
+        static const unsigned long ADV[] = {19, 20, 21, 60};
+        for (int k = 0; k < 2; k++) {
+            unsigned a = nondet_uchar(); VP_ASSUME(a < 4);
+            g_now_ms += ADV[a];
+            loop.pass();
+            VP_ASSERT(tp_ran[0] == (g_now_ms >= 1020 ? 1 : 0), "the first task runs exactly once when its delay has passed");
+            if (!tp_do_cancel) VP_ASSERT(every ? tp_ran[1] == (int)((g_now_ms - 1000) / 21) : tp_ran[1] == (g_now_ms >= 1021 ? 1 : 0), "the second task runs for every period that is due");
+        }
+        pool.cleanup();
+        loop.pass();
+    }
+    loop.pass();
+    VP_ASSERT(loop.timer_min_heap_.empty() && loop.timer_cabinet_.size() == 0, "no timer bookkeeping is left behind");
+    loop.sp_run_read_event_ = nullptr; loop.cleanup();
+    VP_REACH("timer_pool");
+}
